@@ -761,7 +761,12 @@ def run_api(chk, mods, env, quick):
             if got != want:
                 bad.append({"site": label, "impl": got, "model": want})
         expect("CreateStateMachine accepts", o["create"][0] != "InvalidName", m["valid.sm"][1])
-        if o["create"][0] not in ("ok", "InvalidName"):
+        if o["create"][0] == "InvalidArn" and "\n" in c["sm"]:
+            # since 8212855 CreateStateMachine validates the ARN it mints: a name with a line feed (not a forbidden character
+            # of valid_name) gives an ARN the API's pattern ('.+') does not match — the name "would break the round trip" and
+            # is refused, which is what C17 asks; counted
+            chk.dist("api.create_refused_minted_arn_with_newline")
+        elif o["create"][0] not in ("ok", "InvalidName"):
             bad.append({"site": "CreateStateMachine outcome", "impl": o["create"], "model": "ok | InvalidName"})
         if o.get("sm_arn"):
             expect("CreateStateMachine arn", ("ok", o["sm_arn"]), m["mintsm"])
